@@ -5,6 +5,7 @@
 -/
 import CGV.DriverJson
 import CGV.Gen.Funcs
+import CGV.Model.Sample
 open Lean CGV CGV.J
 
 def openOf' (j : Json) : Except String OpenSt :=
@@ -49,6 +50,38 @@ def handle (j : Json) : Except String Json := do
       | .ok out =>
         pure (Json.mkObj [("ok", Json.mkObj [("pre", molTo pre), ("fine", molTo out.fine),
           ("coarse", Json.arr (out.coarse.map fun (k, ks) => Json.arr #[nat k, keysTo ks]).toArray)])])
+  | "sample" =>
+    let frags ← fragsOf (← j.getObjVal? "frags")
+    let react := fun (x : Json) => listOf (pairOf ofStr boolOf) x
+    let poly ← react (← j.getObjVal? "poly")
+    let fragR ← listOf (pairOf ofStr react) (← j.getObjVal? "fragr")
+    let term ← listOf ofStr (← j.getObjVal? "terminals")
+    let rat := fun (x : Json) => pairOf intOf natOf x
+    let masses ← listOf (pairOf ofStr rat) (← j.getObjVal? "masses")
+    let allAtom ← boolOf (← j.getObjVal? "all_atom")
+    let target ← rat (← j.getObjVal? "target")
+    let rng ← listOf natOf (← j.getObjVal? "rng")
+    let startName ← match (j.getObjVal? "start_name").toOption with
+      | some x => if x.isNull then pure none else do pure (some (← ofStr x))
+      | none => pure none
+    let startDec ← match (j.getObjVal? "start_decision").toOption with
+      | some x => if x.isNull then pure none else do pure (some (← natOf x))
+      | none => pure none
+    match mkCfg frags poly fragR term masses allAtom with
+    | .error e => pure (Json.mkObj [("err", Json.str e.name), ("phase", Json.str "init")])
+    | .ok cfg =>
+      match sampleA cfg target startDec startName rng with
+      | .error e => pure (Json.mkObj [("err", Json.str e.name), ("phase", Json.str "grow")])
+      | .ok (pre, log, unused) =>
+        let patched ← match (j.getObjVal? "arom").toOption with
+          | some a => if a.isNull then pure pre else do pure (applyArom pre (← aromOf a))
+          | none => pure pre
+        let logJ := Json.arr (log.map fun g => Json.arr #[str g.fragname, str g.site, str g.partner, nat g.source, nat g.target]).toArray
+        match sampleB cfg patched with
+        | .error e => pure (Json.mkObj [("err", Json.str e.name), ("phase", Json.str "finish"), ("pre", molTo pre), ("log", logJ)])
+        | .ok fin =>
+          pure (Json.mkObj [("ok", Json.mkObj [("pre", molTo pre), ("final", molTo fin), ("log", logJ),
+            ("unused", keysTo unused)])])
   | _ => throw s!"unknown op {op}"
 
 partial def loop (h : IO.FS.Stream) (out : IO.FS.Stream) : IO Unit := do
